@@ -436,6 +436,75 @@ def splitPoseParams (row : List α) : List α × List α :=
 
 end Params
 
+/-! ## 5. Row-wise numerics of the residual: `_rotate_translate`, `_calc_angle_pairs`, `_calc_residual` (one row)
+
+Generic in the number type: the theorems use an arbitrary field with abstract `norm cos sin atan2 tan`
+(Proofs/C09Resid), the driver uses `Float` for the correspondence with numpy. -/
+
+structure V3 (α : Type) where
+  x : α
+  y : α
+  z : α
+  deriving Repr, DecidableEq
+
+section Resid
+variable {α : Type} [Add α] [Sub α] [Mul α] [Neg α] [Div α] [OfNat α 0] [OfNat α 1]
+
+def V3.add (a b : V3 α) : V3 α := ⟨a.x + b.x, a.y + b.y, a.z + b.z⟩
+def V3.sub (a b : V3 α) : V3 α := ⟨a.x - b.x, a.y - b.y, a.z - b.z⟩
+def V3.neg (a : V3 α) : V3 α := ⟨-a.x, -a.y, -a.z⟩
+def V3.smul (k : α) (a : V3 α) : V3 α := ⟨k * a.x, k * a.y, k * a.z⟩
+def V3.dot (a b : V3 α) : α := a.x * b.x + a.y * b.y + a.z * b.z
+/-- `np.cross(a, b)` -/
+def V3.cross (a b : V3 α) : V3 α := ⟨a.y * b.z - a.z * b.y, a.z * b.x - a.x * b.z, a.x * b.y - a.y * b.x⟩
+def V3.zero : V3 α := ⟨0, 0, 0⟩
+
+/-- the numeric primitives numpy provides -/
+structure Trig (α : Type) where
+  norm : V3 α → α
+  cos : α → α
+  sin : α → α
+  atan2 : α → α → α
+  tan : α → α
+  isZero : α → Bool
+
+/-- `v = np.nan_to_num(rot_vecs / theta)`: `0/0 = nan ↦ 0` (a rotation vector of norm 0 is the zero vector) -/
+def unitAxis (tr : Trig α) (r : V3 α) : V3 α :=
+  let theta := tr.norm r
+  if tr.isZero theta then V3.zero else ⟨r.x / theta, r.y / theta, r.z / theta⟩
+
+/-- Rodrigues' formula as written in `_rotate_translate`:
+`cos_theta * points + sin_theta * np.cross(v, points) + dot * (1 - cos_theta) * v + translations` -/
+def rodrigues (c s : α) (v p : V3 α) : V3 α :=
+  ((V3.smul c p).add (V3.smul s (v.cross p))).add (V3.smul (p.dot v * (1 - c)) v)
+
+/-- one row of `_rotate_translate(points, rot_vecs, translations)` -/
+def rotateTranslate (tr : Trig α) (p r t : V3 α) : V3 α :=
+  let theta := tr.norm r
+  (rodrigues (tr.cos theta) (tr.sin theta) (unitAxis tr r) p).add t
+
+/-- one row of `_calc_angle_pairs`: a pose is (rotation vector, translation) -/
+def calcAnglePair (tr : Trig α) (bs cf : V3 α × V3 α) (sens : V3 α) : α × α :=
+  let sensorPoint := rotateTranslate tr sens cf.1 cf.2
+  -- translate and inverse rotate (-rotation vector == inverse rotation)
+  let pb := rotateTranslate tr (sensorPoint.sub bs.2) bs.1.neg V3.zero
+  (tr.atan2 pb.y pb.x, tr.atan2 pb.z pb.x)
+
+/-- the two rows of `_calc_residual` belonging to one angle pair:
+`np.tan(angles - target_angles) * norm(bs_position - cf_position)` -/
+def residualPair (tr : Trig α) (bs cf : V3 α × V3 α) (sens : V3 α) (target : α × α) : α × α :=
+  let a := calcAnglePair tr bs cf sens
+  let d := tr.norm (bs.2.sub cf.2)
+  (tr.tan (a.1 - target.1) * d, tr.tan (a.2 - target.2) * d)
+
+/-- `Pose.rotate_translate(point)` for a pose given by a rotation *function* and a translation -/
+def poseApply (rot : V3 α → V3 α) (t : V3 α) (p : V3 α) : V3 α := (rot p).add t
+
+/-- `LighthouseBsVector.from_cart(v)` then `angle_list()`: (horizontal, vertical) = (atan2(y, x), atan2(z, x)) -/
+def fromCartAngles (tr : Trig α) (v : V3 α) : α × α := (tr.atan2 v.y v.x, tr.atan2 v.z v.x)
+
+end Resid
+
 /-! ## 4. IPPE <-> CF axis permutation -/
 
 abbrev Mat := List (List Int)
